@@ -84,6 +84,8 @@ func c07Corpus(w *Worker, base []*genCase) []*genCase {
 				add(t, gen.UseAll)
 				if tag == "n" {
 					add(t, gen.PlainCopy)
+					// the same with every named token re-declared (untagged, numbered) on a later line
+					out = append(out, &genCase{Origin: c.Origin, Spec: c.Spec, Tags: t, Shape: gen.UseAll, Renumber: true})
 				}
 			}
 		}
